@@ -129,6 +129,10 @@ class Interp:
             raise Uninterpretable("cast")
         if k == "AddrOf":
             return self.ev(e["a"], env)
+        if k == "Array":
+            return ("arr", [self.ev(x, env) for x in e.get("es", [])])
+        if k == "Tup":
+            return ("tup", [self.ev(x, env) for x in e.get("es", [])])
         if k == "Unary":
             v = self.ev(e["a"], env)
             if e["op"] == "!":
@@ -190,6 +194,28 @@ class Interp:
             m = e["m"]
             path = e.get("path", "")
             recv = self.ev(e["recv"], env)
+            # a constant table: `TABLE.iter().any(|&(first, last)| first <= code && code <= last)`, `TABLE.contains(&c)`
+            if isinstance(recv, tuple) and recv[0] == "arr":
+                if m in ("iter", "into_iter", "as_slice", "as_ref", "copied", "cloned") and not e["args"]:
+                    return recv
+                if m in ("any", "all") and e["args"] and e["args"][0].get("k") == "Closure":
+                    clo = e["args"][0]
+                    if len(clo.get("params", [])) != 1:
+                        raise Uninterpretable("closure over a table with %d parameters" % len(clo.get("params", [])))
+                    out = EMPTY if m == "any" else UNIVERSE
+                    for item in recv[1]:
+                        cenv = dict(env)
+                        self.bind(clo["params"][0], item, cenv)
+                        r = self.ev(clo["body"], cenv)
+                        if not isinstance(r, CS):
+                            raise Uninterpretable("closure over a table does not answer a boolean")
+                        out = (out | r) if m == "any" else (out & r)
+                    return out
+                if m == "contains" and e["args"]:
+                    a = self.ev(e["args"][0], env)
+                    if a is XV and all(isinstance(x, int) for x in recv[1]):
+                        return CS.of(*[(x, x) for x in recv[1]]) if recv[1] else EMPTY
+                    raise Uninterpretable("table contains argument")
             if recv is XV and path.startswith(CHAR_IMPL) and m in ASCII_METHODS and not e["args"]:
                 return ASCII_METHODS[m]
             if recv is XV and path.startswith(CHAR_IMPL) and not e["args"] and unicode_method(m) is not None:
@@ -226,6 +252,22 @@ class Interp:
                 return self.call(callee, args)
             raise Uninterpretable("call")
         raise Uninterpretable("expression kind " + str(k))
+
+    def bind(self, pat, value, env):
+        """bind the pattern of a closure parameter to a constant value (integers and tuples of them)"""
+        p = pat.get("p")
+        if p in ("Ref", "Deref"):
+            return self.bind(pat["sub"], value, env)
+        if p == "Bind" and "sub" not in pat:
+            env[pat["lid"]] = value
+            return
+        if p == "Wild":
+            return
+        if p == "Tuple" and isinstance(value, tuple) and value[0] == "tup" and len(value[1]) == len(pat["pats"]) and "dd" not in pat:
+            for q, v in zip(pat["pats"], value[1]):
+                self.bind(q, v, env)
+            return
+        raise Uninterpretable("closure parameter pattern " + str(p))
 
     def call(self, fn, args):
         if self.depth > 12:
